@@ -1148,4 +1148,45 @@ example : HasDerivAt (fun τ : ℝ => (fun ps : List (Param ℝ) => (ps.getD 0 d
   rw [this]
   exact (hasDerivAt_mul_const (3 : ℝ)).const_add (5 : ℝ)
 
+/-! ## Pass 5 -/
+
+/-- **The weight is used entry for entry — there is no tolerance.**  One residual of shape `pre ++ suf ++ [d]`
+(`d ≥ 2`, at least one item) and two weights of the documented shape `suf ++ [d, d]`: if the two expanded block-diagonal
+matrices act in the same way on every vector, then the two weights agree in EVERY entry of every block.  Hence a weight
+that differs from the identity (or from any other matrix) by however little gives a different system: an implementation
+that replaces a nearly-identity weight by the identity is not the documented step. -/
+theorem weight_used_exactly (pre suf : List Nat) (d : Nat) (hd : 1 < d) (hsuf : 0 < prod suf) (hpre : 0 < prod pre)
+    (w w' : Nat → ℝ)
+    (h : ∀ B B', wblocks (pre ++ suf ++ [d]) (suf ++ [d, d]) w = some B →
+      wblocks (pre ++ suf ++ [d]) (suf ++ [d, d]) w' = some B' →
+      ∀ (v : Nat → ℝ) (r : Nat), ∑ c ∈ range (prod suf * prod pre * d), blockDiag [B] r c * v c
+        = ∑ c ∈ range (prod suf * prod pre * d), blockDiag [B'] r c * v c)
+    (s a b : Nat) (hs : s < prod suf) (ha : a < d) (hb : b < d) :
+    w ((s * d + a) * d + b) = w' ((s * d + a) * d + b) := by
+  have ht : s < prod suf * prod pre := lt_of_lt_of_le hs (Nat.le_mul_of_pos_right _ hpre)
+  obtain ⟨B, hB, e⟩ := weight_expand pre suf d hd hsuf w (fun c => if c = s * d + b then 1 else 0) s a ht ha
+  obtain ⟨B', hB', e'⟩ := weight_expand pre suf d hd hsuf w' (fun c => if c = s * d + b then 1 else 0) s a ht ha
+  obtain ⟨B₀, hB₀, hcnt, hh, hw, -, -⟩ := wblocks_documented_ne1 pre suf d hd hsuf w
+  obtain ⟨B₀', hB₀', hcnt', hh', hw', -, -⟩ := wblocks_documented_ne1 pre suf d hd hsuf w'
+  have eB : B₀ = B := Option.some.inj (hB₀.symm.trans hB)
+  have eB' : B₀' = B' := Option.some.inj (hB₀'.symm.trans hB')
+  subst eB eB'
+  have c1 : wCols [B₀] = prod suf * prod pre * d := by simp [wCols, total, WBlocks.cols, hcnt, hw]
+  have c2 : wCols [B₀'] = prod suf * prod pre * d := by simp [wCols, total, WBlocks.cols, hcnt', hw']
+  have key := h B₀ B₀' hB hB' (fun c => if c = s * d + b then 1 else 0) (s * d + a)
+  rw [c1] at e; rw [c2] at e'
+  rw [e, e'] at key
+  have hmod : s % prod suf = s := Nat.mod_eq_of_lt hs
+  simp only [hmod] at key
+  have pick : ∀ f : Nat → ℝ, ∑ x ∈ range d, f x * (if s * d + x = s * d + b then (1:ℝ) else 0) = f b := by
+    intro f
+    rw [Finset.sum_eq_single b]
+    · simp
+    · intro x _ hx
+      have hne : ¬ (s * d + x = s * d + b) := by omega
+      rw [if_neg hne, mul_zero]
+    · intro hnb; exact absurd (mem_range.mpr hb) hnb
+  rw [pick, pick] at key
+  exact key
+
 end PP.GNStep
